@@ -173,6 +173,8 @@ def canon_enum_full(f, mod, base_name, real_name):
         lines.append("enum %s type_where=%s" % (real_name, ";".join(enum_where)))
     for v in variants:
         if v == "_Phantom":
+            # the hidden variant carrying the type parameters must never be (de)serialisable
+            lines.append("enum %s phantom_attrs=%s" % (real_name, ";;".join(strip_attr(a) for a in f.all("%s::%s|attr" % (path, v)))))
             continue
         vp = "%s::%s" % (path, v)
         lines.append("variant %s::%s fields=%s" % (real_name, v, show_fields(fields_of(f, vp))))
